@@ -4,6 +4,14 @@ Oracle: hand-written recognisers (character loops, no regex) of the two language
 statement.  Workload: every string over a 7-symbol hostile alphabet up to a length bound
 (exhaustive) + seeded random Unicode/control-character strings + the repo's own tests re-run with
 icontract post-conditions installed on the two functions.
+
+Acceptance path (phases accept / routes): the property is about what the auth *service* accepts, so the
+real auth/auth/auth.py is imported over the shims and check_valid_new_user / insert_new_user and the three
+routes that reach them (REST create, the /users form, OAuth signup) are driven against an in-memory
+`users` table.  Judged: the outcome of the call/request AND the row that ends up stored (username and
+hail_credentials_secret_name as inserted) against the same two recognisers.  Workload: valid names, and for
+each valid name its "normalisable" neighbours - strings outside the language that some standard
+normalisation (lower, casefold, NFKC, strip, drop controls / marks, unquote, ...) maps back into it.
 """
 import itertools
 import os
@@ -16,9 +24,22 @@ RULE = (
     'phase enum: all strings over the alphabet {a,z,0,-,.,A,\\n,e-acute} with length <= L (L=6 quick, 7 thorough), exhaustive; '
     'phase random: seeded strings mixing valid fragments with control characters, trailing newlines, Unicode digits/lowercase, '
     'non-str values; phase contracts: the repository\'s own pytest cases executed with icontract post-conditions on. '
-    'A case is non-trivial when it is non-empty; distinct by (function, string).'
+    'A case is non-trivial when it is non-empty; distinct by (function, string). '
+    'phase accept: seeded calls of the real check_valid_new_user / insert_new_user (auth/auth/auth.py) on a fresh in-memory users table '
+    '(6 pre-existing users) with a username / credentials secret name drawn from: valid names; normalisable neighbours of valid names '
+    '(one or two mutations: case variants, every non-ASCII code point that lower/casefold/NFKC/mark-stripping maps to an allowed ASCII '
+    'character, whitespace / control / zero-width wrapping or insertion, percent-encoding, separator variants); the junk strings of phase '
+    'random; other arguments mostly well-formed (user / developer / service account), sometimes ill-formed or colliding with an existing row; '
+    'names are at most 255 characters (column width). phase routes: the same inputs through the live route table (POST '
+    '/api/v1alpha/users/{user}/create as a developer, with and without test-deployment mode; POST /users form; GET /oauth2callback signup). '
+    'Distinct by (entry point, username, secret name, identity-argument shape).'
 )
-ASSUMPTIONS = ['the two hand-written recognisers below are the languages stated in the property']
+ASSUMPTIONS = [
+    'the two hand-written recognisers below are the languages stated in the property',
+    'acceptance path: vf/shims (import of auth.auth, aiohttp_session shim), the in-memory users/sessions table of this file (exact, case- and '
+    'accent-sensitive string equality as under the utf8mb4_0900_as_cs collation of migration 007; UNIQUE username / login_id; rollback on error), '
+    'a fake OAuth flow client, requests built with aiohttp make_mocked_request and resolved through the real router (middlewares not mounted)',
+]
 SHARDS = {'quick': 1, 'thorough': 8}
 FLOORS = {'accepted_username': 50, 'rejected_username': 1000, 'accepted_secret': 50, 'rejected_secret': 1000, 'contract_evaluations': 63}
 
@@ -66,11 +87,16 @@ def model_secret_name(s) -> bool:
     return not prev_sep
 
 
+FRAG = ['a', 'abc', 'x9', '0', '42', '-', '--', '.', '..', '.-', '-.', 'A', 'Z', '\n', '\r', '\t', '\x00', '\x0b', '\x0c', '\x1f',
+        '\x7f', '\x85', ' ', ' ', ' ', ' ', '²', '¹', '١', '１', 'ａ', 'ǆ', 'ß', 'ı',
+        'α', 'а', '\U0001d41a', '́', '_', '!', '/', '%0a', '\\n', '\U0001f600']
+
+
 def _classify(fn, s, impl_accepts):
     """mechanism key for a disagreement"""
     kind = 'accepts-invalid' if impl_accepts else 'rejects-valid'
     if isinstance(s, str) and impl_accepts:
-        if s.endswith('\n') and (model_username if fn == 'username' else model_secret_name)(s[:-1]):
+        if s.endswith('\n') and (model_username if fn.endswith('username') else model_secret_name)(s[:-1]):
             return f'{fn}/trailing-newline-accepted'
         if any(ord(c) > 127 for c in s):
             return f'{fn}/non-ascii-accepted'
@@ -132,9 +158,7 @@ def run(ctx):
         ctx.count('enum_strings', n // ctx.n_shards)
 
     # ---- phase random -------------------------------------------------------------------
-    frag = ['a', 'abc', 'x9', '0', '42', '-', '--', '.', '..', '.-', '-.', 'A', 'Z', '\n', '\r', '\t', '\x00', '\x0b', '\x0c', '\x1f',
-            '\x7f', '\x85', ' ', ' ', ' ', ' ', '²', '¹', '١', '１', 'ａ', 'ǆ', 'ß', 'ı',
-            'α', 'а', '\U0001d41a', '́', '_', '!', '/', '%0a', '\\n', '\U0001f600']
+    frag = FRAG
     N = ctx.pick(60_000, 400_000)
     for i, rng in ctx.cases(N, 'random'):
         k = rng.choice([1, 2, 2, 3, 3, 4, 5, 8, 40])
@@ -148,6 +172,9 @@ def run(ctx):
         elif mode < 0.32:
             s = rng.choice([None, 0, 1, b'abc', ['a'], 3.5])
         check(s)
+
+    # ---- phases accept / routes: the acceptance path of the service (see the section below run) -------
+    acceptance_phases(ctx)
 
     # ---- phase contracts: the repo's own tests with icontract post-conditions ---------------
     if ctx.shard == 0 and ctx.replay is None:
@@ -180,3 +207,730 @@ def run(ctx):
             ctx.inconclusive_because('repo tests with contracts timed out')
     elif ctx.replay is None:
         ctx.count('contract_evaluations', 0)
+
+
+# =====================================================================================================
+# Acceptance path: what the auth service lets through and what it stores.
+#
+# The two validators above are only half of the statement: "the auth service accepts a username exactly
+# when ...".  The service accepts a name when check_valid_new_user / insert_new_user (auth/auth/auth.py) let
+# it through and the INSERT INTO users carries it.  Everything below drives that real code (direct calls and
+# the three routes that reach it) against an in-memory users table and judges the outcome and the stored row.
+# =====================================================================================================
+
+MAX_NAME = 255  # users.username / hail_credentials_secret_name are varchar(255); longer names are not generated here
+
+
+class UnsupportedSQL(Exception):
+    pass
+
+
+def _sql_args(args):
+    if args is None:
+        return ()
+    if isinstance(args, (tuple, list)):
+        return tuple(args)
+    return (args,)
+
+
+class _Tx:
+    def __init__(self, db):
+        self.db = db
+
+    async def __aenter__(self):
+        self.snapshot = ([dict(u) for u in self.db.users], self.db.next_id)
+        return self.db
+
+    async def __aexit__(self, et, ev, tb):
+        if et is not None:
+            self.db.users, self.db.next_id = self.snapshot
+            self.db.rollbacks += 1
+        else:
+            self.db.commits += 1
+        return False
+
+
+class FakeUsersDB:
+    """users (+ sessions) of the auth database in memory.  String comparison is exact (utf8mb4_0900_as_cs since
+    migration 007, no padding); UNIQUE KEY username, UNIQUE KEY login_id (NULLs repeat); varchar(255) in strict mode.
+    Answers exactly the statements the driven code issues; anything else raises UnsupportedSQL (=> inconclusive)."""
+
+    COLUMNS = ('id', 'state', 'username', 'login_id', 'display_name', 'is_developer', 'is_service_account', 'hail_identity', 'hail_identity_uid',
+               'hail_credentials_secret_name', 'tokens_secret_name', 'namespace_name', 'trial_bp_name', 'last_activated')
+    VARCHAR = ('state', 'username', 'login_id', 'display_name', 'hail_identity', 'hail_credentials_secret_name', 'tokens_secret_name', 'namespace_name')
+
+    def __init__(self):
+        self.users = []
+        self.next_id = 1
+        self.sessions = {}
+        self.commits = 0
+        self.rollbacks = 0
+        self.unsupported = []
+        self.inserted_args = []  # argument tuples of INSERT INTO users as received from the code under test
+
+    def add_user(self, username, state, login_id=None, is_developer=0, is_service_account=0, secret=None):
+        u = dict.fromkeys(self.COLUMNS)
+        u.update(id=self.next_id, state=state, username=username, login_id=login_id, is_developer=is_developer, is_service_account=is_service_account,
+                 hail_identity=f'{username}@verif.iam.invalid', hail_credentials_secret_name=secret, last_activated=0)
+        self.next_id += 1
+        self.users.append(u)
+        return u
+
+    def _insert_user(self, cols, a):
+        import pymysql
+
+        row = dict.fromkeys(self.COLUMNS)
+        row.update(is_developer=0, is_service_account=0, last_activated=0)
+        for c, v in zip(cols, a):
+            if c not in self.COLUMNS or c == 'id':
+                raise UnsupportedSQL(f'INSERT INTO users: column {c}')
+            if isinstance(v, bool):
+                v = int(v)
+            if c in self.VARCHAR and isinstance(v, str) and len(v) > MAX_NAME:
+                raise pymysql.err.DataError(1406, f"Data too long for column '{c}' at row 1")
+            row[c] = v
+        if row['state'] is None or row['username'] is None:
+            raise pymysql.err.IntegrityError(1048, "Column cannot be null")
+        for u in self.users:
+            if u['username'] == row['username']:
+                raise pymysql.err.IntegrityError(1062, f"Duplicate entry {row['username']!r} for key 'users.username'")
+            if row['login_id'] is not None and u['login_id'] == row['login_id']:
+                raise pymysql.err.IntegrityError(1062, f"Duplicate entry {row['login_id']!r} for key 'users.login_id'")
+        row['id'] = self.next_id
+        self.next_id += 1
+        self.users.append(row)
+        self.inserted_args.append(tuple(a))
+        return row['id']
+
+    def _run(self, sql, args):
+        import re
+
+        q = re.sub(r'\s+', ' ', sql).strip().rstrip(';').strip()
+        a = _sql_args(args)
+        if q.count('%s') != len(a):
+            raise UnsupportedSQL(f'{len(a)} arguments for {q[:80]!r}')
+        U = self.users
+        m = re.fullmatch(r'SELECT \* FROM users WHERE username = %s( OR login_id = %s)? LOCK IN SHARE MODE', q)
+        if m:
+            return [dict(u) for u in U if u['username'] == a[0] or (m.group(1) and u['login_id'] is not None and u['login_id'] == a[1])]
+        m = re.fullmatch(r'INSERT INTO users \(([a-z_, ]+)\) VALUES \(((?:%s, ?)*%s)\)', q)
+        if m:
+            cols = [c.strip() for c in m.group(1).split(',')]
+            if len(cols) != len(a):
+                raise UnsupportedSQL(q[:120])
+            return self._insert_user(cols, a)
+        if re.fullmatch(r'SELECT \* FROM users WHERE login_id = %s', q):
+            return [dict(u) for u in U if u['login_id'] is not None and u['login_id'] == a[0]]
+        if re.fullmatch(r"SELECT users\.\* FROM users INNER JOIN sessions ON users\.id = sessions\.user_id WHERE users\.state = 'active' AND "
+                        r"sessions\.session_id = %s AND \(ISNULL\(sessions\.max_age_secs\) OR "
+                        r"\(NOW\(\) < TIMESTAMPADD\(SECOND, sessions\.max_age_secs, sessions\.created\)\)\)", q):
+            uid = self.sessions.get(a[0])
+            return [dict(u) for u in U if u['id'] == uid and u['state'] == 'active']
+        if re.fullmatch(r'UPDATE users SET last_activated = CURRENT_TIMESTAMP\(3\) WHERE id = %s', q):
+            return sum(1 for u in U if u['id'] == a[0])
+        if re.fullmatch(r'UPDATE sessions SET created = NOW\(\) WHERE session_id = %s', q):
+            return int(a[0] in self.sessions)
+        self.unsupported.append(q[:160])
+        raise UnsupportedSQL(q[:200])
+
+    async def select_and_fetchall(self, sql, args=None, query_name=None):
+        for r in self._run(sql, args):
+            yield r
+
+    execute_and_fetchall = select_and_fetchall
+
+    async def select_and_fetchone(self, sql, args=None, query_name=None):
+        rows = self._run(sql, args)
+        return rows[0] if rows else None
+
+    execute_and_fetchone = select_and_fetchone
+
+    async def just_execute(self, sql, args=None):
+        self._run(sql, args)
+
+    async def execute_update(self, sql, args=None):
+        return self._run(sql, args)
+
+    async def execute_insertone(self, sql, args=None, **kw):
+        return self._run(sql, args)
+
+    def start(self, read_only=False):
+        return _Tx(self)
+
+
+SID_DEV = 'D' * 43 + '='
+BASE_USERS = (  # (username, state, login_id, is_developer, is_service_account)
+    ('dev', 'active', 'dev@hail.invalid', 1, 0),
+    ('alice', 'active', 'alice@hail.invalid', 0, 0),
+    ('abc', 'active', 'abc@hail.invalid', 0, 0),
+    ('carol', 'creating', 'carol@hail.invalid', 0, 0),
+    ('dora', 'deleted', 'dora@hail.invalid', 0, 0),
+    ('svc-ci', 'active', None, 0, 1),
+)
+
+
+def make_users_world():
+    db = FakeUsersDB()
+    for name, state, login, dev, sa in BASE_USERS:
+        u = db.add_user(name, state, login, dev, sa, secret=f'{name}-gsa-key')
+        if name == 'dev':
+            db.sessions[SID_DEV] = u['id']
+    return db
+
+
+# ---- generators ---------------------------------------------------------------------------------------
+
+REAL_USERNAMES = ('john', 'johnsmith', 'kelvin', 'mkl', 'strasse', 'test-dev', 'ci', 'a-b-c', 'x9', 'k8s-user', 'u0', 'a', 'k', 's', '0', '42',
+                  'batch', 'grafana', 'sam-k', 'alice2', 'abc')  # 'abc' collides with an existing row
+REAL_SECRETS = ('john-gsa-key', 'a.b-c', 'x', 'gsa-key.v2', '0', 'a3a.3a', 'test-gsa-key', 'k.s', 'kelvin-gsa-key', 'ci-gsa-key')
+WRAPPERS = ('\n', '\r\n', '\r', ' ', '\t', '\x00', '\x0b', '\x0c', '\x1f', '\x7f', '\x85', '\xa0', '\u2028', '\u2029', '\u200b', '\u200d', '\ufeff', '\xad',
+            '\u3000', '\u180e', '\u2060')  # line ends, C0/C1 controls, NBSP, line/paragraph separator, zero-width, BOM, soft hyphen, ideographic space
+_CONFUSABLE = None
+
+
+def confusables():
+    """allowed ASCII character -> every non-ASCII code point (BMP + mathematical alphanumerics + enclosed alphanumerics supplement) that one of the
+    standard normalisations lower / casefold / upper().lower() / NFKC / NFKC+casefold / NFKD-without-marks maps to exactly that character"""
+    global _CONFUSABLE
+    if _CONFUSABLE is None:
+        import unicodedata as ud
+
+        allowed = set(LOWER + DIGITS + '-.')
+        table = {c: [] for c in allowed}
+        ranges = (range(0x80, 0xD800), range(0xE000, 0x10000), range(0x1D400, 0x1D800), range(0x1F100, 0x1F200))
+        for r in ranges:
+            for cp in r:
+                ch = chr(cp)
+                nfkc = ud.normalize('NFKC', ch)
+                forms = {ch.lower(), ch.casefold(), ch.upper().lower(), nfkc, nfkc.casefold(),
+                         ''.join(x for x in ud.normalize('NFKD', ch) if not ud.combining(x))}
+                for f in forms:
+                    if len(f) == 1 and f in allowed:
+                        table[f].append(ch)
+                        break
+        _CONFUSABLE = {k: v for k, v in table.items() if v}
+    return _CONFUSABLE
+
+
+def normal_forms(s):
+    """(name, normalised string) for the normalisations a service plausibly applies before validating"""
+    import unicodedata as ud
+    from urllib.parse import unquote
+
+    nfkc = ud.normalize('NFKC', s)
+    yield 'lower', s.lower()
+    yield 'casefold', s.casefold()
+    yield 'nfkc', nfkc
+    yield 'nfkc-casefold', nfkc.casefold()
+    yield 'strip', s.strip()
+    yield 'strip-lower', s.strip().lower()
+    yield 'drop-marks', ''.join(x for x in ud.normalize('NFKD', s) if not ud.combining(x))
+    yield 'ascii-ignore', s.encode('ascii', 'ignore').decode()
+    yield 'drop-nonprintable', ''.join(x for x in s if x.isprintable() and not x.isspace())
+    yield 'drop-format', ''.join(x for x in s if ud.category(x) not in ('Cf', 'Cc', 'Zs', 'Zl', 'Zp'))
+    yield 'unquote', unquote(s)
+    yield 'until-nul', s.split('\x00')[0]
+    yield 'first-line', s.splitlines()[0] if s.splitlines() else s
+    yield 'strip-separators', s.strip('-._')
+    yield 'collapse-hyphens', '-'.join(x for x in s.split('-') if x)
+    yield 'underscore-to-hyphen', s.replace('_', '-')
+
+
+def normalisers_reaching(s, model):
+    if not isinstance(s, str) or model(s):
+        return []
+    out = []
+    for name, t in normal_forms(s):
+        try:
+            if model(t):
+                out.append(name)
+        except Exception:
+            pass
+    return out
+
+
+def rand_valid_username(rng):
+    if rng.random() < 0.4:
+        return rng.choice(REAL_USERNAMES)
+    labels = [''.join(rng.choice(LOWER + LOWER + DIGITS) for _ in range(rng.choice([1, 2, 3, 5, 8]))) for _ in range(rng.choice([1, 1, 1, 2, 3]))]
+    return '-'.join(labels)
+
+
+def rand_valid_secret(rng):
+    if rng.random() < 0.4:
+        return rng.choice(REAL_SECRETS)
+    labels = [''.join(rng.choice(LOWER + LOWER + DIGITS) for _ in range(rng.choice([1, 2, 3, 5]))) for _ in range(rng.choice([1, 2, 2, 3, 4]))]
+    s = labels[0]
+    for lab in labels[1:]:
+        s += rng.choice('.-') + lab
+    return s
+
+
+def mutate(rng, core, kind):
+    """one step from a string towards a normalisable neighbour; returns (string, mutation name)"""
+    conf = confusables()
+    letters = [i for i, c in enumerate(core) if c in LOWER]
+    m = rng.choice(['upper-one', 'upper-one', 'title', 'upper-all', 'confusable', 'confusable', 'confusable-case', 'wrap', 'wrap', 'insert', 'percent',
+                    'separator', 'edge-separator', 'combining'])
+    if m in ('upper-one', 'title', 'upper-all', 'combining') and not letters:
+        m = 'confusable'
+    if m == 'upper-one':
+        i = rng.choice(letters)
+        return core[:i] + core[i].upper() + core[i + 1:], m
+    if m == 'title':
+        return core.title(), m
+    if m == 'upper-all':
+        return core.upper(), m
+    if m in ('confusable', 'confusable-case'):
+        idx = [i for i, c in enumerate(core) if c in conf]
+        if m == 'confusable-case':  # only the code points whose *case* mapping is ASCII (KELVIN SIGN, LONG S, ...)
+            idx = [i for i in idx if any(x.lower() == core[i] or x.casefold() == core[i] for x in conf[core[i]])]
+        if not idx:
+            return core + '\n', 'wrap'
+        i = rng.choice(idx)
+        pool = conf[core[i]]
+        if m == 'confusable-case':
+            pool = [x for x in pool if x.lower() == core[i] or x.casefold() == core[i]]
+        return core[:i] + rng.choice(pool) + core[i + 1:], m
+    if m == 'wrap':
+        w = rng.choice(WRAPPERS)
+        return (w + core if rng.random() < 0.35 else core + w), m
+    if m == 'insert':
+        i = rng.randrange(len(core) + 1)
+        return core[:i] + rng.choice(WRAPPERS) + core[i:], m
+    if m == 'percent':
+        i = rng.randrange(len(core))
+        return core[:i] + rng.choice(['%%%02x', '%%%02X']) % ord(core[i]) + core[i + 1:], m
+    if m == 'separator':
+        seps = [i for i, c in enumerate(core) if c in '-.']
+        if not seps:
+            i = rng.randrange(len(core) + 1)
+            return core[:i] + rng.choice(['_', '--', '.', ' ', '+'] if kind == 'username' else ['_', '..', '.-', '--', ' ']) + core[i:], m
+        i = rng.choice(seps)
+        return core[:i] + rng.choice(['_', '--', '.', '\u2010', '\u2011', '\uff0d', '\ufe63', '\u2212'] if kind == 'username'
+                                     else ['_', '..', '.-', '-.', '--', '\uff0e', '\uff0d', '\u2024']) + core[i + 1:], m
+    if m == 'edge-separator':
+        sep = rng.choice('-.' if kind == 'secret' else '-')
+        return (sep + core if rng.random() < 0.5 else core + sep), m
+    i = rng.choice(letters)  # combining
+    return core[:i + 1] + rng.choice(['\u0301', '\u0308', '\u0327', '\u200d']) + core[i + 1:], m
+
+
+def junk(rng):
+    k = rng.choice([1, 2, 2, 3, 3, 4, 5, 8, 40])
+    return ''.join(rng.choice(FRAG) for _ in range(k))
+
+
+def gen_name(rng, kind):
+    """-> (string, class) with class in valid / neighbour / junk / empty"""
+    valid = rand_valid_username if kind == 'username' else rand_valid_secret
+    r = rng.random()
+    if r < 0.34:
+        return valid(rng), 'valid'
+    if r < 0.84:
+        s, _ = mutate(rng, valid(rng), kind)
+        if rng.random() < 0.25:
+            s2, _ = mutate(rng, s, kind) if s else (s, None)
+            s = s2
+        return s[:MAX_NAME], 'neighbour'
+    if r < 0.86:
+        return '', 'empty'
+    return junk(rng)[:MAX_NAME], 'junk'
+
+
+def gen_identity(rng, n):
+    """the other arguments of insert_new_user -> (login_id, is_developer, is_service_account, shape)"""
+    fresh = f'new{n}@hail.invalid'
+    r = rng.random()
+    if r < 0.5:
+        return fresh, False, False, 'user'
+    if r < 0.62:
+        return fresh, True, False, 'developer'
+    if r < 0.72:
+        return None, False, True, 'service-account'
+    if r < 0.78:
+        return fresh, False, True, 'service-account-with-login'
+    if r < 0.84:
+        return rng.choice(['alice@hail.invalid', 'carol@hail.invalid', 'dora@hail.invalid']), False, False, 'login-id-taken'
+    if r < 0.88:
+        return rng.choice(['', None]), False, False, 'no-login-id'
+    if r < 0.91:
+        return fresh, True, True, 'both-types'
+    if r < 0.94:
+        return rng.choice([5, ['x'], b'x']), False, False, 'login-id-not-str'
+    if r < 0.97:
+        return fresh, rng.choice([1, 'true', None]), False, 'developer-not-bool'
+    return fresh, False, rng.choice([0, 'false', None]), 'service-account-not-bool'
+
+
+WELL_FORMED = ('user', 'developer', 'service-account', 'service-account-with-login')
+
+
+def conflict_of(db_users, username, login_id):
+    """none / same-user (same username and login id, not deleted: the call is an idempotent no-op) / other"""
+    hits = [u for u in db_users if u['username'] == username or (login_id is not None and u['login_id'] == login_id)]
+    if not hits:
+        return 'none'
+    if len(hits) == 1 and hits[0]['username'] == username and hits[0]['login_id'] == login_id and hits[0]['state'] not in ('deleting', 'deleted'):
+        return 'same-user'
+    return 'other'
+
+
+# ---- oracle ---------------------------------------------------------------------------------------------
+
+
+def judge_acceptance(ctx, where, username, secret, secret_judged, shape, before, db, outcome, detail):
+    """outcome: created / existing / accepted (accepted, created-or-existing not distinguishable) / rejected / crashed.
+    `before` is the users table before the call; the rows added since are what the service stored."""
+    known_ids = {u['id'] for u in before}
+    new_rows = [u for u in db.users if u['id'] not in known_ids]
+    u_ok = model_username(username)
+    s_ok = model_secret_name(secret)
+    accepted = outcome in ('created', 'existing', 'accepted')
+    w = {'entry': where, 'username': username, 'secret_name': secret, 'identity_shape': shape, 'outcome': outcome, 'detail': detail,
+         'stored': [{'username': r['username'], 'hail_credentials_secret_name': r['hail_credentials_secret_name'], 'login_id': r['login_id']} for r in new_rows]}
+    ctx.count('acceptance_' + ('accepted' if accepted else 'rejected'))
+    ctx.count('stored_rows_judged', len(new_rows))
+    flagged = set()
+    if accepted and not u_ok:
+        flagged.add(('u', username))
+        ctx.violation(_classify('acceptance/username', username, True), f'{where}: username {username!r} was accepted ({outcome}), language says no', w)
+    if accepted and new_rows and secret_judged and not s_ok:
+        flagged.add(('s', secret))
+        ctx.violation(_classify('acceptance/secret', secret, True), f'{where}: credentials secret name {secret!r} was accepted ({outcome}), language says no', w)
+    conflict = conflict_of(before, username, detail.get('login_id'))
+    if not accepted and u_ok and s_ok and shape in WELL_FORMED and conflict == 'none' and detail.get('must_accept', True):
+        ctx.violation('acceptance/rejects-valid', f'{where}: username {username!r} / secret name {secret!r} with well-formed arguments and no colliding row was {outcome}', w)
+    for r in new_rows:
+        su, ss = r['username'], r['hail_credentials_secret_name']
+        if not model_username(su) and ('u', su) not in flagged:
+            ctx.violation(_classify('stored/username', su, True), f'{where}: a users row with username {su!r} was stored (input {username!r})', w)
+        if not model_secret_name(ss) and ('s', ss) not in flagged:
+            ctx.violation(_classify('stored/secret', ss, True), f'{where}: a users row with hail_credentials_secret_name {ss!r} was stored (input {secret!r})', w)
+        if su != username and model_username(su):
+            ctx.violation('stored/username-differs-from-input', f'{where}: input username {username!r}, stored {su!r}', w)
+        if secret_judged and ss != secret and model_secret_name(ss):
+            ctx.violation('stored/secret-differs-from-input', f'{where}: input secret name {secret!r}, stored {ss!r}', w)
+    if not accepted and new_rows:
+        ctx.violation('stored/row-after-rejection', f'{where}: the request was {outcome} but a users row {new_rows[0]["username"]!r} was stored', w)
+    if outcome == 'created' and len(new_rows) != 1:
+        ctx.violation('acceptance/created-without-row', f'{where}: reported created, {len(new_rows)} rows stored', w)
+    if len(new_rows) > 1:
+        ctx.violation('stored/several-rows', f'{where}: {len(new_rows)} rows stored by one request', w)
+    return new_rows
+
+
+# ---- drivers ---------------------------------------------------------------------------------------------
+
+
+class _FlowResult:
+    def __init__(self, login_id, email, org):
+        self.login_id = login_id
+        self.unverified_email = email
+        self.organization_id = org
+        self.token = {}
+
+
+class FakeFlow:
+    ORG = 'hail.invalid'
+
+    def __init__(self):
+        self.identity = None
+
+    def organization_id(self):
+        return self.ORG
+
+    def receive_callback(self, request, flow_dict):
+        if self.identity is None or request.query.get('state') != flow_dict.get('state'):
+            raise ValueError('state mismatch')
+        return _FlowResult(*self.identity)
+
+    async def get_identity_uid_from_access_token(self, session, access_token, *, oauth2_client):
+        return None
+
+
+class AuthRoutes:
+    """auth.auth's live route table on a real aiohttp router (all decorators in effect), socket-less"""
+
+    def __init__(self, A):
+        import warnings
+
+        import aiohttp_session
+        from aiohttp import web
+
+        warnings.filterwarnings('ignore')
+        self.A, self.web, self.S = A, web, aiohttp_session
+        self.app = web.Application()
+        self.app.add_routes(A.routes)
+
+    def install(self, db, flow):
+        K = self.A.AppKeys
+        self.app[K.DB] = db
+        self.app[K.FLOW_CLIENT] = flow
+        self.app[K.CLIENT_SESSION] = object()
+        self.app[K.HAILCTL_CLIENT_CONFIG] = {'installed': {'client_id': 'verif'}}
+
+    async def request(self, method, path_qs, *, cookie=None, headers=None, body=None, content_type=None):
+        from aiohttp.test_utils import make_mocked_request
+        from multidict import CIMultiDict, CIMultiDictProxy
+
+        web, S = self.web, self.S
+        h = CIMultiDict({'Host': 'auth.hail.invalid', 'X-Forwarded-Proto': 'https', 'X-Forwarded-Host': 'auth.hail.invalid'})
+        h.update(headers or {})
+        if body is not None:
+            h['Content-Type'] = content_type
+        out = {'status': None, 'location': None, 'error': None, 'session': None}
+        try:
+            req = make_mocked_request(method, path_qs, headers=CIMultiDictProxy(h), app=self.app)
+        except Exception as e:  # noqa: BLE001  the request line is not acceptable to aiohttp: the server answers 400
+            out['status'], out['error'] = 400, 'request-not-constructible:' + type(e).__name__
+            return out
+        req._read_bytes = body if body is not None else b''
+        if cookie is not None:
+            req[S.SESSION_KEY] = S.Session(data=dict(cookie), new=False)
+        resp = None
+        try:
+            mi = await self.app.router.resolve(req)
+            req._match_info = mi
+            mi.add_app(self.app)
+            resp = await mi.handler(req)
+        except web.HTTPException as e:
+            resp = e
+        except UnsupportedSQL:
+            raise
+        except Exception as e:  # noqa: BLE001  aiohttp answers 500
+            out['error'] = f'{type(e).__name__}: {str(e)[:120]}'
+        sess = req.get(S.SESSION_KEY)
+        out['session'] = dict(sess) if sess is not None else None
+        if resp is not None:
+            out['status'] = getattr(resp, 'status', None)
+            hdrs = getattr(resp, 'headers', None)
+            if hdrs is not None and 'Location' in hdrs:
+                out['location'] = hdrs['Location']
+        else:
+            out['status'] = 500
+        return out
+
+
+def _note_input_class(ctx, kind, s, cls):
+    ctx.count(f'{kind}_inputs_{cls}')
+    reach = normalisers_reaching(s, model_username if kind == 'username' else model_secret_name)
+    if reach:
+        ctx.count(f'normalisable_{kind}_inputs')
+        for r in reach:
+            ctx.seen(f'normalisers_{kind}', r)
+        if isinstance(s, str) and any(c.isupper() for c in s) and 'lower' in reach:
+            ctx.count(f'case_variant_{kind}_inputs')
+        if isinstance(s, str) and any(ord(c) > 127 for c in s):
+            ctx.count(f'non_ascii_normalisable_{kind}_inputs')
+    return reach
+
+
+def acceptance_phases(ctx):
+    import asyncio
+    import json
+    import logging
+    from urllib.parse import quote, urlencode
+
+    import vf.bootstrap
+
+    try:
+        vf.bootstrap.seed_global_config()
+        import auth.auth as A
+        from auth.exceptions import AuthUserError
+    except Exception as e:  # noqa: BLE001
+        ctx.inconclusive_because(f'auth.auth could not be imported for the acceptance path: {type(e).__name__}: {e}')
+        return
+    logging.getLogger('auth').setLevel(logging.CRITICAL)
+    logging.getLogger('aiohttp').setLevel(logging.CRITICAL)
+    loop = asyncio.new_event_loop()
+    confusables()
+    ctx.count('confusable_code_points', sum(len(v) for v in confusables().values()))
+
+    def gen_case(rng, i, want_secret_p):
+        username, ucls = gen_name(rng, 'username')
+        if rng.random() < want_secret_p:
+            secret, scls = gen_name(rng, 'secret')
+        else:
+            secret, scls = None, 'none'
+        if ucls != 'valid' and scls not in ('none', 'valid') and rng.random() < 0.7:
+            username, ucls = rand_valid_username(rng), 'valid'  # isolate the hostile secret name behind a good username
+        login_id, is_dev, is_sa, shape = gen_identity(rng, i)
+        return username, ucls, secret, scls, login_id, is_dev, is_sa, shape
+
+    # ---- phase accept: the real functions ---------------------------------------------------------------
+    async def call_insert(db, username, login_id, is_dev, is_sa, hail_identity, secret):
+        try:
+            r = await A.insert_new_user(db, username, login_id, is_dev, is_sa, hail_identity=hail_identity, hail_credentials_secret_name=secret)
+        except AuthUserError as e:
+            return 'rejected', type(e).__name__
+        except UnsupportedSQL:
+            raise
+        except Exception as e:  # noqa: BLE001
+            return 'crashed', f'{type(e).__name__}: {str(e)[:100]}'
+        if r is True:
+            return 'created', 'True'
+        if r is False:
+            return 'existing', 'False'
+        return 'accepted', repr(r)[:60]
+
+    async def call_check(db, username, login_id, is_dev, is_sa):
+        try:
+            async with db.start() as tx:
+                r = await A.check_valid_new_user(tx, username, login_id, is_dev, is_sa)
+        except AuthUserError as e:
+            return 'rejected', type(e).__name__
+        except UnsupportedSQL:
+            raise
+        except Exception as e:  # noqa: BLE001
+            return 'crashed', f'{type(e).__name__}: {str(e)[:100]}'
+        return ('accepted' if r is None else 'existing'), ('None' if r is None else 'existing row ' + repr(r.get('username')))
+
+    N = ctx.pick(12_000, 60_000)
+    for i, rng in ctx.cases(N, 'accept'):
+        direct_check = rng.random() < 0.2
+        username, ucls, secret, scls, login_id, is_dev, is_sa, shape = gen_case(rng, i, 0.0 if direct_check else 0.45)
+        hail_identity = None if secret is None or rng.random() < 0.3 else f'{i}@verif.iam.invalid'
+        db = make_users_world()
+        before = [dict(u) for u in db.users]
+        _note_input_class(ctx, 'username', username, ucls)
+        if secret is not None:
+            _note_input_class(ctx, 'secret', secret, scls)
+        try:
+            if direct_check:
+                where = 'check_valid_new_user'
+                outcome, info = loop.run_until_complete(call_check(db, username, login_id, is_dev, is_sa))
+            else:
+                where = 'insert_new_user'
+                outcome, info = loop.run_until_complete(call_insert(db, username, login_id, is_dev, is_sa, hail_identity, secret))
+        except UnsupportedSQL as e:
+            ctx.inconclusive_because(f'acceptance path issued a statement the in-memory users table does not know: {e}')
+            break
+        ctx.count('accept_calls_' + where)
+        ctx.count(f'accept_outcome_{outcome}')
+        ctx.seen('accept_results', f'{where}:{outcome}:{info if outcome == "rejected" else ""}')
+        if outcome == 'crashed':
+            ctx.seen('accept_crashes', info[:60])
+        detail = {'login_id': login_id, 'is_developer': is_dev, 'is_service_account': is_sa, 'result': info}
+        judge_acceptance(ctx, where, username, secret, True, shape, before, db, outcome, detail)
+        if direct_check and len(db.users) != len(before):
+            ctx.violation('stored/row-after-check-only', 'check_valid_new_user changed the users table', {'username': username})
+        ctx.case(sample={'entry': where, 'username': username, 'secret_name': secret, 'shape': shape, 'outcome': outcome},
+                 key=(where, username, secret, shape), nontrivial=bool(username))
+
+    # ---- phase routes: the routes that reach insert_new_user -------------------------------------------
+    svc = AuthRoutes(A)
+    auth_root = A.deploy_config.external_url('auth', '')
+    creating_url = A.deploy_config.external_url('auth', '/creating')
+    users_url = A.deploy_config.external_url('auth', '/users')
+    saved_test_deployment = A.is_test_deployment
+    N = ctx.pick(6_000, 30_000)
+    try:
+        for i, rng in ctx.cases(N, 'routes'):
+            route = rng.choice(['rest', 'rest', 'form', 'oauth'])
+            username, ucls, secret, scls, login_id, is_dev, is_sa, shape = gen_case(rng, i, 0.45 if route == 'rest' else 0.0)
+            db, flow = make_users_world(), FakeFlow()
+            svc.install(db, flow)
+            before = [dict(u) for u in db.users]
+            _note_input_class(ctx, 'username', username, ucls)
+            if secret is not None:
+                _note_input_class(ctx, 'secret', secret, scls)
+            must_accept = True
+            A.is_test_deployment = saved_test_deployment
+            try:
+                if route == 'rest':
+                    where = 'POST /api/v1alpha/users/{user}/create'
+                    body = {'login_id': login_id, 'is_developer': is_dev, 'is_service_account': is_sa}
+                    if isinstance(login_id, bytes):
+                        body['login_id'], shape = 7, 'login-id-not-str'
+                    hail_identity = None
+                    if secret is not None:
+                        body['hail_credentials_secret_name'] = secret
+                        if rng.random() < 0.7:
+                            hail_identity = body['hail_identity'] = f'{i}@verif.iam.invalid'
+                    if secret is not None or hail_identity is not None:
+                        A.is_test_deployment = rng.random() < 0.8  # an existing identity may only be named in a test deployment
+                        must_accept = A.is_test_deployment
+                        ctx.count('rest_with_secret_test_deployment' if A.is_test_deployment else 'rest_with_secret_default_deployment')
+                    r = loop.run_until_complete(svc.request(
+                        'POST', '/api/v1alpha/users/' + quote(username, safe='') + '/create', headers={'Authorization': 'Bearer ' + SID_DEV},
+                        body=json.dumps(body).encode(), content_type='application/json'))
+                    outcome = 'accepted' if r['status'] == 200 else 'crashed' if r['status'] == 500 else 'rejected'
+                    if '/' in username or username in ('', '.', '..'):
+                        must_accept = False  # not expressible as one path segment (and not in the language anyway)
+                elif route == 'form':
+                    where = 'POST /users'
+                    if not (login_id is None or isinstance(login_id, str)):
+                        login_id, shape = None, 'no-login-id'
+                    if not isinstance(is_dev, bool) or not isinstance(is_sa, bool):
+                        is_dev, is_sa, shape = False, False, ('user' if login_id else 'no-login-id')
+                    form = {'username': username}
+                    if login_id is not None:
+                        form['login_id'] = login_id
+                    if is_dev:
+                        form['is_developer'] = '1'
+                    if is_sa:
+                        form['is_service_account'] = '1'
+                    if login_id is None and is_sa:
+                        shape = 'service-account'
+                    r = loop.run_until_complete(svc.request('POST', '/users', cookie={'session_id': SID_DEV}, body=urlencode(form).encode(),
+                                                            content_type='application/x-www-form-urlencoded'))
+                    msg = (r['session'] or {}).get('message') or {}
+                    if r['status'] == 500:
+                        outcome = 'crashed'
+                    elif r['status'] == 302 and r['location'] == users_url and msg.get('type') == 'info':
+                        outcome = 'created' if str(msg.get('text', '')).startswith('Created user') else 'existing'
+                    else:
+                        outcome = 'rejected'
+                    r['message'] = msg
+                else:
+                    where = 'GET /oauth2callback (signup)'
+                    # the e-mail local part is what the identity provider vouches for; the service derives the username from it
+                    login_id, is_dev, is_sa, shape = f'new{i}@hail.invalid', False, False, 'user'
+                    flow.identity = (login_id, username + '@hail.invalid', FakeFlow.ORG)
+                    cookie = {'flow': {'state': 'st1', 'authorization_url': 'https://accounts.idp.invalid/', 'redirect_uri': 'x'}, 'caller': 'signup'}
+                    r = loop.run_until_complete(svc.request('GET', '/oauth2callback?state=st1', cookie=cookie))
+                    sess = r['session'] or {}
+                    if r['status'] == 500:
+                        outcome = 'crashed'
+                    elif r['status'] == 302 and r['location'] == creating_url and sess.get('pending'):
+                        outcome = 'accepted'
+                    else:
+                        outcome = 'rejected'
+                    # only a local part that is already a hyphen-free username is certainly meant to be taken over unchanged
+                    must_accept = model_username(username) and '-' not in username
+            except UnsupportedSQL as e:
+                ctx.inconclusive_because(f'acceptance path issued a statement the in-memory users table does not know: {e}')
+                break
+            finally:
+                A.is_test_deployment = saved_test_deployment
+            ctx.count('route_requests')
+            ctx.count('route_requests_' + route)
+            ctx.count(f'route_outcome_{outcome}')
+            ctx.seen('route_statuses', f'{route}:{r["status"]}')
+            if r.get('error'):
+                ctx.seen('route_errors', f'{route}:{r["error"][:60]}')
+            if r['status'] == 401:
+                ctx.count('route_unauthorized')
+            detail = {'login_id': login_id, 'is_developer': is_dev, 'is_service_account': is_sa, 'status': r['status'], 'location': r['location'],
+                      'error': r.get('error'), 'message': r.get('message'), 'must_accept': must_accept}
+            if route == 'oauth':
+                # the service stores a name it derived itself: judge the stored row, and the outcome against the derived (stored) name
+                known = {u['id'] for u in before}
+                stored = [u for u in db.users if u['id'] not in known]
+                judged_name = stored[0]['username'] if stored else username
+                if not stored and not must_accept:
+                    ctx.count('acceptance_rejected')
+                else:
+                    if stored and not model_username(username):
+                        detail['local_part'] = username
+                    judge_acceptance(ctx, where, judged_name, None, False, shape, before, db, outcome, detail)
+            else:
+                judge_acceptance(ctx, where, username, secret, route == 'rest', shape, before, db, outcome, detail)
+            ctx.case(sample={'entry': where, 'username': username, 'secret_name': secret, 'shape': shape, 'outcome': outcome, 'status': r['status']},
+                     key=(where, username, secret, shape), nontrivial=bool(username))
+        if ctx.counters.get('route_unauthorized'):
+            ctx.inconclusive_because('the developer session of the route phase was not recognised (401)')
+    finally:
+        A.is_test_deployment = saved_test_deployment
+        loop.close()
